@@ -206,6 +206,11 @@ func (p *PostingsList) iterator(includeFreq, includeNorm, includeLocs bool,
 	if p.postings == nil {
 		return rv
 	}
+	if p.postings.IsEmpty() {
+		// a reused list whose term or field was not found keeps its (cleared)
+		// bitmap but has no segment data behind it: there is nothing to decode
+		return rv
+	}
 
 	// initialize freq chunk reader
 	if rv.includeFreqNorm {
